@@ -1415,6 +1415,7 @@ func (s *State) checkASAInterfaces() error {
 	// Collect and check named interfaces from device.
 	// Add implicit interfaces when comparing two Netspoc generated configs.
 	aIntf2cmd := getImplicitInterfaces(s.a)
+	var unmanaged []*cmd
 	for _, c := range s.a.lookup["interface"][""] {
 		name := ""
 		shut := false
@@ -1432,6 +1433,7 @@ func (s *State) checkASAInterfaces() error {
 				// If some ACL or crypto map is bound to this unmanaged
 				// interface, these commands must not accidently be deleted.
 				s.markNeeded(aIntf2cmd[name])
+				unmanaged = append(unmanaged, aIntf2cmd[name]...)
 
 				if !shut {
 					errlog.Warning(
@@ -1440,6 +1442,21 @@ func (s *State) checkASAInterfaces() error {
 			}
 			// Add map key, even if no commands are bound to this interface.
 			aIntf2cmd[name] = nil
+		}
+	}
+
+	// Commands bound to unmanaged interfaces must not be compared
+	// with commands from Netspoc.
+	for _, prefix := range []string{"access-group", "crypto map interface"} {
+		if m := s.a.lookup[prefix]; m != nil {
+			l := slices.DeleteFunc(m[""], func(c *cmd) bool {
+				return slices.Contains(unmanaged, c)
+			})
+			if len(l) != 0 {
+				m[""] = l
+			} else {
+				delete(m, "")
+			}
 		}
 	}
 
